@@ -223,7 +223,7 @@ Section Equiv.
     rewrite <- (eqv_vtxs _ _ _ E3), <- (eqv_cap _ _ _ E3).
     destruct (length (vtxs a3) =? cap a3)%nat eqn:Ecap.
     - destruct (insert_pos t (vtxs a3) =? length (vtxs a3))%nat eqn:En.
-      + cbn [fst snd fix_oom fixed_cfg]. split; auto.
+      + cbn [fst snd fix_oom fixed_cfg repaired]. split; auto.
         destruct (oracle t); auto. apply set_oresp_eqv; auto. apply nmdel_ext. exact (eqv_oresp _ _ _ E3).
       + cbn [fst snd]. split; auto. apply finish_add_eqv.
         assert (Hl : vtxs a3 <> []).
